@@ -6,11 +6,11 @@ ROOT = os.path.dirname(os.path.dirname(os.path.abspath(__file__)))
 CLAIMED = {
  # id: (category, text, note, technique, design_ref)
  "C14": ("fault_enumeration",
-         "Fault injection on the raw (unframed) disk and wire between a real Writer node and the real readers: for PRNG-drawn valid images of 19 family/variant kinds the injector enumerates truncation at every byte offset, every single-bit flip and 17 boundary byte values over the header, boundary values in every aligned u16/u32/u64 header field, and samples multi-fault combinations of torn writes, zeroed/stale/duplicated/swapped sectors, extension, splices, random buffers and misrouting to other families' readers; every damaged buffer goes to every deserialize entry point (and CpcWrapper::new) in supervised child processes under an allocation-accounting allocator, in both build profiles; the call must end Ok or Err - no panic, abort, hang, or allocation out of proportion to the input - and every Ok value must survive the recovery workload (accessors, 64 updates, merges both ways, to_sketch, re-serialize, re-deserialize).",
+         "Fault injection on the raw (unframed) disk and wire between a real Writer node and the real readers: for PRNG-drawn valid images of 19 family/variant kinds the injector enumerates truncation at every byte offset, every single-bit flip and 17 boundary byte values over the header, boundary values in every aligned u16/u32/u64 header field, and also enumerates pairs of header bytes and (byte, 32-bit field) pairs at boundary values, re-encodes the pair table of every CPC image around pair lists no writer produces (independent entropy encoder, validated by the identity re-encoding on every image), draws foreign-writer images that are self-consistent lies (a wrong part with the derived header fields recomputed to match), and samples multi-fault combinations of torn writes, zeroed/stale/duplicated/swapped sectors, extension, splices, random buffers and misrouting to other families' readers; every damaged buffer goes to every deserialize entry point (and CpcWrapper::new) in supervised child processes under an allocation-accounting allocator, in both build profiles; the call must end Ok or Err - no panic, abort, hang, or allocation out of proportion to the input - and every Ok value must survive the recovery workload (accessors, 64 updates, merges both ways, to_sketch, re-serialize, re-deserialize).",
          "Relaxed oracle (only here): values are never compared. Budget 64*len + 64 KiB, with configuration-implied sizes exempt up to the 1 GiB hard cap. Seven narrowly identified abort classes (empty-form Bloom / Count-Min images that encode a huge configuration) are recorded findings; everything else found was repaired in /repo (see known_findings.txt).",
          "deterministic simulation with fault injection: enumerated + sampled storage/transport corruption of valid images, allocator seam, supervised children", "DESIGN.md §4 C14"),
  "C17": ("exploration",
-         "The standard global invariant of deterministic simulation: every simulated scenario of the other claimed properties is executed, valid operations only, in both build profiles (release; armed = debug-assertions + overflow-checks on) with every library call under a panic guard, plus a dedicated crash/restart scenario pinned to the documented configuration extremes (HLL lg_k 4/21, CPC 4/16/21, theta 5, t-digest k 10, Frequent Items map 8, Bloom 1 bit/1 hash, Count-Min 1x3 with narrow counters) whose twin comparison stays armed so that release-profile wrap-around surfaces as a mismatch; any panic raised inside the library, identified by source location and statement, is the violation.",
+         "The standard global invariant of deterministic simulation: every simulated scenario of the other claimed properties is executed, valid operations only, in both build profiles (release; armed = debug-assertions + overflow-checks on) with every library call under a panic guard, plus a dedicated crash/restart scenario pinned to the documented configuration extremes (HLL lg_k 4/21, CPC 4/16/21, theta 5, t-digest k 10, Frequent Items map 8, Bloom 1 bit/1 hash, Count-Min 1x3 with narrow counters) and, before each of its runs, a probe of the public surface at both ends of every documented parameter range (t-digest k 10..65535, CPC/theta lg_k 26, sampling probabilities down to f32::MIN_POSITIVE, 2^31 Frequent Items map, 127 Count-Min rows, MAX_NUM_HASHES Bloom hashes, infinite query points, zero counts); the scenario's twin comparison stays armed so that release-profile wrap-around surfaces as a mismatch; any panic raised inside the library, identified by source location and statement, is the violation.",
          "Trusted: the preconditions of DESIGN.md Appendix C define valid use. Model mismatches found by the re-run scenarios belong to their own property; only panics/aborts count for those parts.",
          "deterministic simulation: all scenarios re-run in two build profiles with the library's own assertions and overflow checks armed; panic = violation", "DESIGN.md §4 C17"),
  "C18": ("exploration",
@@ -66,7 +66,7 @@ CLAIMED = {
          "Trusted: contribution-set model, independent HLL encoder/decoder. Order independence is demanded of state and lg_k only (HIP estimates are legitimately history dependent).",
          "deterministic simulation: at-least-once network with reorder/dup/loss feeding unions vs contribution-set model", "DESIGN.md §4 C03"),
  "C16": ("exploration",
-         "Seeded simulation of the one stream-shaped seam in the library (Hasher::write): every run draws byte strings, seeds and chunkings (short writes, zero-length writes, block-edge cuts; all 2^(n-1) splits for n<=12) and compares the library digests and every derived quantity (HLL coupon, theta hash, CPC row/col, Count-Min buckets, Bloom positions, seed hash) with independent one-shot reference hashes. Sampling, not proof: a clean batch is evidence over the explored chunkings.",
+         "Seeded simulation of the one stream-shaped seam in the library (Hasher::write): every run draws byte strings, seeds and chunkings (short writes, zero-length writes, block-edge cuts; all 2^(n-1) splits for n<=12; every other chunking goes through the typed Hasher methods write_u8..write_u128; one item in four is constructed to have a prescribed extreme Murmur digest) and compares the library digests and every derived quantity (HLL coupon, theta hash, CPC row/col, Count-Min buckets, Bloom positions, seed hash) with independent one-shot reference hashes. Sampling, not proof: a clean batch is evidence over the explored chunkings.",
          "Trusted: sim/src/refhash.rs (validated against canonical MurmurHash3/XXH64 vectors at start-up); std Hash impls feed little-endian bytes.",
          "deterministic simulation: PRNG-chosen write chunking (short/empty writes) vs reference model", "DESIGN.md §4 C16"),
 }
